@@ -106,6 +106,19 @@ def run_unit(arg):
                 out["sha"] = finfo.sha()
             except Unsupported as e:
                 out["error"] = f"unsupported: {e}"
+                # the body left the verified subset (the unit stays UNDECIDED); a bounded native search may still find
+                # an input on which the REAL function violates its contract -- that is a genuine violation
+                try:
+                    from pyvc import selftest
+                    w = selftest.search_witness(repo, c, seed, n=3000)
+                except BaseException:  # noqa
+                    w = None
+                if w is not None and w.get("confirmed"):
+                    out["obligations"].append({
+                        "name": f"{c.target}/native-search", "kind": "bounded", "verdict": "refuted", "tool": "native search",
+                        "budget": 3000, "replay": w, "witness_confirmed": True, "model_inputs": w.get("args"),
+                        "note": f"bounded: body outside the verified subset ({e}); native search found an input on which "
+                                f"the real function violates {w.get('failed_clauses')}"})
         else:
             lem = [l for l in api.LEMMAS if l.name == key][0]
             try:
